@@ -9,7 +9,7 @@
 (*  dup:   {"equal":[bool per duplicated column]}                                         *)
 (*  comb:  {"equal":bool}   the appended column equals the stated function of its sources *)
 (*  label: {"n":classes,"sorted_y":[labels ordered by decision value],"counts":[per class],*)
-(*          "want1e6":[requested proportion*1e6 per class],"ties":bool}                   *)
+(*          "want1e6":[requested proportion*1e4 per class],"ties":bool}                   *)
 (*  noise: {"budget":floor(p*n),"changed":[cells changed per feature],"outside":[new      *)
 (*          values outside the feature's own value set per feature],"untouched":bool}     *)
 (*  missing: {"budget":..,"markers":[per feature],"other_changes":int,"untouched":bool}   *)
@@ -40,7 +40,7 @@ LabelOK(r) ==
     /\ \A i \in 1..(Len(r.sorted_y) - 1) : r.sorted_y[i] <= r.sorted_y[i + 1]         \* monotone step function of the decision value
     /\ RangeOf(r.sorted_y) \subseteq 0..(r.n - 1)
     /\ (~r.ties => \A k \in DOMAIN r.counts :
-            Abs(r.counts[k] * 1000000 - r.want1e6[k] * Len(r.sorted_y)) <= 1000000 + Len(r.sorted_y))   \* within one sample of the requested share
+            Abs(r.counts[k] * 10000 - r.want1e6[k] * Len(r.sorted_y)) <= 10000 + Len(r.sorted_y))   \* within one sample of the requested share
 NoiseOK(r) == /\ \A i \in DOMAIN r.changed : r.changed[i] <= r.budget
               /\ \A i \in DOMAIN r.outside : r.outside[i] = 0
               /\ r.untouched
